@@ -170,6 +170,32 @@ CHECKS = {
     note=('Trusted: Coq kernel, ExtrOcamlBasic, OCaml driver, Python harness including the fault catalogue oracle, gen_c05_tables.py translator. The pyparsing grammar is not modelled; Pass1-3 checks other than the block checks and literal parsing have no theorem (fault enumeration only). '
           'The thorough tier was not soaked to completion during the build.'),
     technique='Rocq proof over a hand-written Gallina model and a generated finite table + fault enumeration / differential correspondence against the real compiler'),
+ 'C03': dict(
+    category='proof',
+    text=('Rocq theorems (Proofs/VerifierProofs.v) about the machine model: for EVERY stack instruction (arithmetic, logic, comparison, conversion, constants, string functions, stack shuffles, jz/jmp: about 60 opcodes, the domain of the abstract typing function eff) and EVERY machine state whose operand-stack types satisfy the instruction typing rule, execution never raises TYPE_MISMATCH / STACK_EMPTY / any host exception, '
+          'leaves memory and devices untouched and produces exactly the abstract result types (eff_sound); lifted by induction to straight-line blocks of any length (block_safe); the only traps possible are value errors. The whole-program part is decided per module and per run by the EXTRACTED monitor (Models/Monitor.v) replaying the real run (tie: complete final state equality with the real machine): '
+          'static linear decode and jump targets on instruction boundaries, and at every tick the premise of eff_sound, no forbidden trap, every cell holding a value of its declared type (layout certificate from the compiler symbol tables), pc on a boundary, operand-stack depth at statement starts = entry depth + active GOSUBs. '
+          'Programs: corpus, the operator x type-pair matrix with operands in variables, control/memory programs, argument/parameter/assignment type pairs (run only if the compiler accepts them), at the configurations.'),
+    design_ref='DESIGN.md 5/C03 and 11.1',
+    note=('Trusted: Coq kernel, extraction, OCaml driver, Python harness incl. build_cert (layout certificate via qvm.memlayout). NOT proved: a whole-program verifier soundness theorem (control-flow joins, memory typing, reference opcodes): that part is a run-time monitor, i.e. exploration of the paths actually run. Open findings: D08, D14, D21, D26.'),
+    technique='Rocq proof of instruction/block type safety over the machine model + extracted run-time monitor (translation validation of each run)'),
+ 'C10': dict(
+    category='proof',
+    text=('12 closed Rocq theorems about the machine model (tick, do_trap = QvmCpu._trap, exec_errres = RESUME/RESUME NEXT, find_stmt = DebugInfo.find_stmt): armed and not already handling, ANY trap transfers control to the handler, marks it active and records the code; ERR pushes that code; the address of the failing instruction is recorded for every error source incl. division by zero; '
+          'the statement lookup returns an innermost record containing the address and finds one iff one exists (induction over the table); RESUME sets pc to the start and RESUME NEXT to the end of that statement, both leave the handler and change nothing else; ON ERROR RESUME NEXT skips the failing statement without entering a handler; ON ERROR GOTO 0 disarms; an error inside the handler halts; '
+          '"as if the failed statement had not been started" is REFUTED for the operand stack (no unwinding: D21). The model describes the tree after the fix commits for D19/D20/D45h. Tied to the code by a deterministic program family (6 statement shapes x 4 error kinds x {RESUME NEXT, RESUME after repair, ON ERROR RESUME NEXT, GOTO 0} x {module level, inside GOSUB}, a second failing statement, errors in SUBs, out of DATA) x levels with debug info, '
+          'judged against the device trace expected by construction and replayed by the extracted monitor (final-state tie + stack depth at statement starts).'),
+    design_ref='DESIGN.md 5/C10',
+    note=('Trusted: Coq kernel, extraction, OCaml driver, Python harness (generator and its expected traces). Modelled, not verified: qvm/cpu.py tick/_trap/_exec_err*, find_stmt; code generation of ON ERROR/RESUME and the debug map are exercised through the real compiler only. Open finding: D21 (no unwinding) - the depth>0 classes.'),
+    technique='Rocq proof over the machine model + differential correspondence with expected-by-construction traces and the extracted monitor'),
+ 'C20': dict(
+    category='other',
+    text=('Functional model + perturbed correspondence. Rocq theorems (closed): in the machine model the result of a run (state, event list, tick count) is independent of the tick limit once the machine stops by itself, and two machines under any tick schedule behave as alone; in the model of the compiler order-sensitive containers the DEFtype letter set may be enumerated in any permutation, the label set is observed through membership only, DATA parts and the literal table are first-occurrence functions of the source order. '
+          'The property itself is established by exploration: every target (repository programs + generated programs stressing DEFtype ranges, labels, literals, DATA, SUB/FUNCTION, SHARED, CONST, TYPE; six configurations) is observed in a pristine interpreter with hash seed 0 and again under other hash seeds, after histories of other compilations in the same process (incl. failing programs and the same program at another level), in another cwd, later, in a fresh interpreter, with two Compiler instances alive, in a thread, with machines run repeatedly and interleaved tick by tick; '
+          'sections 1-4, listing, debug-map offsets, event trace, outcome and tick count must equal the single reference, and the reference run must equal the extracted machine model.'),
+    design_ref='DESIGN.md 5/C20',
+    note=('Trusted: Coq kernel, ExtrOcamlBasic, OCaml driver, Python harness. That a Gallina function has no hidden inputs is meta-theory, so the theorem content is thin; coverage of hash seeds, histories and schedules is finite. Out of scope: the debug section (gzip+pickle) as bytes, OS signal delivery, real-time devices (scripted).'),
+    technique='Rocq proofs over small Gallina models + differential testing of the implementation against itself under perturbed environments and against the extracted machine model'),
 }
 
 ALL = ['C%02d' % i for i in range(1, 21)]
